@@ -538,31 +538,14 @@ func c17Acs(c *Ctx, p *Prog) {
 		}
 		c.Check(len(padded) == 0, "C17-R3", "buildAcsMap:no-padding-in-glyphs", p.pos(fn.Pos()), fmt.Sprintf("glyph strings are written as cell content (no TPuts): padding of smacs/rmacs is stripped when the map is built (stripped: %v); entries whose padding would be drawn as text: %v", !raw, padded))
 	}
-	// pairs: byte 0 names the glyph, byte 1 IS the glyph (taken as a one-byte substring, not converted
-	// from a byte value, which would make a code point of it), advance by 2
-	okPairs := false
-	idx := map[int64]bool{}
+	// pairs: the byte at offset 0 of what remains names the glyph, the byte at offset 1 IS the glyph
+	// (taken as a one-byte substring, not converted from a byte value, which would make a code point of
+	// it), each round moves on by 2, and the loop goes on exactly while two bytes remain.  "What
+	// remains" is either a string shortened by [2:] each round or an index counting up by 2.
+	okPairs, last, how := c17PairLoop(fn)
 	codePoint := ""
 	eachInstr(fn, func(in ssa.Instruction) {
-		switch x := in.(type) {
-		case *ssa.Index:
-			if k, ok := constInt(x.Index); ok {
-				idx[k] = true
-			}
-		case *ssa.Lookup:
-			if k, ok := constInt(x.Index); ok && !x.CommaOk {
-				idx[k] = true
-			}
-		case *ssa.Slice:
-			if k, ok := constInt(x.Low); ok && k == 2 && x.High == nil {
-				okPairs = true
-			}
-			if lo, ok := constInt(x.Low); ok && lo == 1 {
-				if hi, ok := constInt(x.High); ok && hi == 2 {
-					idx[1] = true
-				}
-			}
-		case *ssa.Convert:
+		if x, ok := in.(*ssa.Convert); ok {
 			if b, ok := x.X.Type().Underlying().(*types.Basic); ok && (b.Kind() == types.Byte || b.Kind() == types.Uint8) {
 				if bs, ok := x.Type().Underlying().(*types.Basic); ok && bs.Kind() == types.String {
 					codePoint = "string(byte) at " + p.pos(x.Pos()) + " turns a byte >= 0x80 into the UTF-8 encoding of that code point"
@@ -570,11 +553,172 @@ func c17Acs(c *Ctx, p *Prog) {
 			}
 		}
 	})
-	c.Check(okPairs && idx[0] && idx[1] && codePoint == "", "C17-R3", "buildAcsMap:pairs", p.pos(fn.Pos()), "reads bytes 0 and 1 and advances by 2; the glyph byte is copied as a byte "+codePoint)
-	// the loop admits a remaining length of exactly 2 (the last pair)
-	at := atomsOf(fn)
-	last := at["len(acsstr) > 1"] || at["len(acsstr) >= 2"] || at["len(acsstr) <= 1"] || at["len(acsstr) < 2"]
-	c.Check(last, "C17-R3", "buildAcsMap:last-pair", p.pos(fn.Pos()), fmt.Sprintf("loop condition must hold for a remaining length of 2, or the final pair of acsc is never mapped; conditions: %v", sortedKeys(at)))
+	c.Check(okPairs && codePoint == "", "C17-R3", "buildAcsMap:pairs", p.pos(fn.Pos()), "reads bytes 0 and 1 and advances by 2; the glyph byte is copied as a byte "+codePoint+how)
+	c.Check(last, "C17-R3", "buildAcsMap:last-pair", p.pos(fn.Pos()), "loop condition must hold for a remaining length of 2, or the final pair of acsc is never mapped; "+how)
+}
+
+// c17PairLoop finds the loop over the acsc string and decides, on values, that it walks it in pairs.
+func c17PairLoop(fn *ssa.Function) (pairs, last bool, how string) {
+	for h, body := range loopsOf(fn) {
+		for _, in := range h.Instrs {
+			phi, ok := in.(*ssa.Phi)
+			if !ok {
+				continue
+			}
+			bt, isB := phi.Type().Underlying().(*types.Basic)
+			if !isB {
+				continue
+			}
+			var str ssa.Value // the string offsets are taken in
+			index := false
+			switch {
+			case bt.Kind() == types.String:
+				// s = phi(acsc, s[2:])
+				for _, e := range phi.Edges {
+					if sl, isSl := e.(*ssa.Slice); isSl && sl.X == ssa.Value(phi) && sl.High == nil {
+						if k, isK := constInt(sl.Low); isK && k == 2 {
+							str = phi
+						}
+					}
+				}
+			case bt.Info()&types.IsInteger != 0:
+				// i = phi(0, i+2)
+				zero, step := false, false
+				for _, e := range phi.Edges {
+					if k, isK := constInt(e); isK && k == 0 {
+						zero = true
+					}
+					if bo, isBO := e.(*ssa.BinOp); isBO && bo.Op == token.ADD && bo.X == ssa.Value(phi) {
+						if k, isK := constInt(bo.Y); isK && k == 2 {
+							step = true
+						}
+					}
+				}
+				index = zero && step
+			}
+			if str == nil && !index {
+				continue
+			}
+			// offset of v from the cursor: v = cursor + k
+			offset := func(v ssa.Value) (int64, bool) {
+				if index {
+					if v == ssa.Value(phi) {
+						return 0, true
+					}
+					if bo, isBO := v.(*ssa.BinOp); isBO && bo.Op == token.ADD && bo.X == ssa.Value(phi) {
+						return constInt(bo.Y)
+					}
+					return 0, false
+				}
+				return constInt(v)
+			}
+			name, glyph := false, false
+			for b := range body {
+				for _, bin := range b.Instrs {
+					switch x := bin.(type) {
+					case *ssa.Index: // indexing a string
+						if _, isStr := x.X.Type().Underlying().(*types.Basic); !isStr {
+							continue
+						}
+						if !index && x.X != str {
+							continue
+						}
+						if k, isK := offset(x.Index); isK && k == 0 {
+							name = true
+							if index {
+								str = x.X
+							}
+						}
+					case *ssa.Slice:
+						if !index && x.X != str {
+							continue
+						}
+						if x.Low == nil || x.High == nil {
+							continue
+						}
+						lo, ok1 := offset(x.Low)
+						hi, ok2 := offset(x.High)
+						if ok1 && ok2 && lo == 1 && hi == 2 {
+							glyph = true
+						}
+					}
+				}
+			}
+			pairs = name && glyph
+			// the loop's own test: continue exactly while len(str) - cursor >= 2
+			var lin func(v ssa.Value) (cl, cp, k int64, ok bool)
+			lin = func(v ssa.Value) (int64, int64, int64, bool) {
+				if index && v == ssa.Value(phi) {
+					return 0, 1, 0, true
+				}
+				if k, isK := constInt(v); isK {
+					return 0, 0, k, true
+				}
+				if call, isCall := v.(*ssa.Call); isCall {
+					if bi, isBI := call.Call.Value.(*ssa.Builtin); isBI && bi.Name() == "len" && str != nil && sameValue(call.Call.Args[0], str) {
+						return 1, 0, 0, true
+					}
+				}
+				if bo, isBO := v.(*ssa.BinOp); isBO && (bo.Op == token.ADD || bo.Op == token.SUB) {
+					l1, p1, k1, ok1 := lin(bo.X)
+					l2, p2, k2, ok2 := lin(bo.Y)
+					if ok1 && ok2 {
+						if bo.Op == token.ADD {
+							return l1 + l2, p1 + p2, k1 + k2, true
+						}
+						return l1 - l2, p1 - p2, k1 - k2, true
+					}
+				}
+				return 0, 0, 0, false
+			}
+			for b := range body {
+				if len(b.Instrs) == 0 {
+					continue
+				}
+				iff, isIf := b.Instrs[len(b.Instrs)-1].(*ssa.If)
+				if !isIf {
+					continue
+				}
+				exits := -1
+				for i, sc := range b.Succs {
+					if !body[sc] {
+						exits = i
+					}
+				}
+				if exits < 0 {
+					continue
+				}
+				bo, isBO := iff.Cond.(*ssa.BinOp)
+				if !isBO {
+					continue
+				}
+				l1, p1, k1, ok1 := lin(bo.X)
+				l2, p2, k2, ok2 := lin(bo.Y)
+				if !ok1 || !ok2 {
+					continue
+				}
+				cl, cp, k, op := l1-l2, p1-p2, k1-k2, bo.Op
+				if exits == 0 { // the true edge leaves: the loop goes on when the test fails
+					op = negTok(op)
+				}
+				if cl == -1 {
+					cl, cp, k, op = -cl, -cp, -k, swapTok(op)
+				}
+				wantCp := int64(0)
+				if index {
+					wantCp = -1
+				}
+				how += fmt.Sprintf("continues while %d*len %+d*cursor %+d %s 0; ", cl, cp, k, op)
+				if cl == 1 && cp == wantCp && ((op == token.GEQ && k == -2) || (op == token.GTR && k == -1)) {
+					last = true
+				}
+			}
+			if pairs || last {
+				return pairs, last, how
+			}
+		}
+	}
+	return false, false, how + "no loop walking the acsc string found"
 }
 
 func c17Charset(c *Ctx, p *Prog) {
